@@ -55,7 +55,7 @@ def run(ctx):
     rng = ctx.rng
     quick = ctx.quick()
     # ---- 1. design level (runs while the real launches are made)
-    rows = {rng.choice([0, 1, 2, 3])} if quick else {0, 1, 2, 3, 4, 5, 6, 7}
+    rows = {rng.choice([0, 1, 2, 3])} if quick else {rng.choice([0, 2]), rng.choice([1, 3])}
     mcsites = set(range(512)) if not quick else set(FAMILY) | set(rng.sample(range(512), 100))
     mc = {}
 
@@ -67,7 +67,7 @@ def run(ctx):
 
     # ---- 2. cases
     sites = list(FAMILY)
-    sites += rng.sample(range(512), ctx.pick(6, 40))
+    sites += rng.sample(range(512), ctx.pick(6, 24))
     bases = sorted({s * 512 + r for s in sites for r in ROWS})
     g = ctx.tlc("Launch_Gen", cfg="CONSTANTS\n  C04Pairs = {}\n  C07Bases = {%s}\nINIT Init\nNEXT Next\n" % ",".join(map(str, bases)),
                 timeout=600, count=False)
@@ -81,7 +81,7 @@ def run(ctx):
         k = (c["fail"], c["idx"], c["cb"], o["sync"], o["ptrace"] and o["seccomp"], o["stop"], o["user"])
         fam.setdefault(k, []).append(c)
     cases = []
-    per = ctx.pick(1, 6)
+    per = ctx.pick(1, 3)
     for k in sorted(fam, key=str):
         v = fam[k]
         cases += rng.sample(v, min(per, len(v)))
@@ -119,7 +119,7 @@ def run(ctx):
     st_pool = [c for c in cases if not c["opt"]["ptrace"] and not (c["opt"]["stop"] and c["opt"]["sync"]) and c["fail"] not in ("keepcaps", "dropA_secbits")]
     rng.shuffle(st_pool)
     st_cases = []
-    for i, c in enumerate(st_pool[:ctx.pick(32, 300)]):
+    for i, c in enumerate(st_pool[:ctx.pick(32, 150)]):
         c2 = dict(c)
         c2["id"] = 100000 + i
         st_cases.append(c2)
